@@ -37,6 +37,8 @@ type Plan struct {
 	Kinds      []string
 	MaxKeysOps int
 	MaxRst     int
+	Faults     []string // fault classes of the slotf operations (one-shot SQL error on one statement of the slot path)
+	MaxFaults  int
 	MaxBeh     int // cap on replayed maximal behaviours (0 = all)
 }
 
@@ -49,6 +51,8 @@ var (
 	allGas = []string{"Low", "AtLimit", "Above"} // the classes relative to the encrypted gas limit; near-MaxInt64 classes: plan huge
 	diag   = [][]string{{"A", "B"}}
 	allK   = [][]string{{"A"}, {"B"}, {"A", "B"}}
+	// one fault class per statement of the slot path (GnosisSlot.tla FaultClasses)
+	allFaults = []string{"synced", "keyperset", "registered", "incr", "eon", "getptr", "initptr", "count", "events", "setcur"}
 )
 
 func grid(ps, ns []int) [][2]int {
@@ -78,6 +82,11 @@ func plansFor(thorough bool, seed int64) []Plan {
 			// gas limits near MaxInt64 (the column is an int64): first after the pointer and behind Low ones; the running sum must not wrap
 			{Name: "huge", NEons: 1, MaxAge: 1, MaxSlot: 1, QMax: 3, QInit: 3, QInitMin: 2, InitGas: []string{"Low", "Half", "Max1", "Max"}, Ranks: rk(),
 				KeysPN: grid([]int{0, 1, 2}, []int{1}), OutN: []int{0}, KSets: diag, Kinds: []string{"slot", "in"}, MaxKeysOps: 1},
+			// every statement of the slot path fails once (on one keyper or on both), the slot is offered again (new block + slot
+			// ticker), the peer handles it normally; pointer age at MaxAge-1 before the slot
+			{Name: "fault", NEons: 1, MaxAge: 1, MaxSlot: 2, QMax: 2, QInit: 2, QInitMin: 2, InitGas: []string{"Low"}, Ranks: rk(),
+				KeysPN: [][2]int{{1, 1}}, OutN: []int{0}, KSets: allK, Kinds: []string{"slot", "slotf", "in"}, MaxKeysOps: 1,
+				Faults: allFaults, MaxFaults: 1},
 			// ages 0..Max+1 and unknown, fallback, unregistered proposer, synced slot, growing queue
 			{Name: "age", NEons: 1, MaxAge: 1, Unreg: []int{2}, MaxSlot: 4, QMax: 2, QInit: 1, InitGas: []string{"Low"}, GrowGas: []string{"Low"}, Ranks: rk(),
 				KeysPN: [][2]int{{0, 1}, {1, 2}}, OutN: []int{0}, KSets: diag, Kinds: []string{"slot", "in", "grow", "sync", "restart"}, MaxKeysOps: 2, MaxRst: 1},
@@ -97,6 +106,12 @@ func plansFor(thorough bool, seed int64) []Plan {
 			KeysPN: grid([]int{0, 1, 2, 3, 4, 5}, []int{1, 2}), OutN: []int{0}, KSets: diag, Kinds: []string{"slot", "in", "restart"}, MaxKeysOps: 1, MaxRst: 1},
 		{Name: "huge", NEons: 1, MaxAge: 1, MaxSlot: 2, QMax: 4, QInit: 4, QInitMin: 2, InitGas: []string{"Low", "AtLimit", "Half", "Max1", "Max"}, Ranks: rk(),
 			KeysPN: grid([]int{0, 1, 2, 3}, []int{1}), OutN: []int{0}, KSets: diag, Kinds: []string{"slot", "in"}, MaxKeysOps: 1},
+		{Name: "fault", NEons: 1, MaxAge: 1, Unreg: []int{3}, MaxSlot: 3, QMax: 2, QInit: 2, QInitMin: 2, InitGas: []string{"Low"}, Ranks: rk(),
+			KeysPN: [][2]int{{1, 1}, {0, 1}}, OutN: []int{0}, KSets: allK, Kinds: []string{"slot", "slotf", "in", "restart"}, MaxKeysOps: 1, MaxRst: 1,
+			Faults: allFaults, MaxFaults: 1},
+		{Name: "fault2", NEons: 1, MaxAge: 2, MaxSlot: 3, QMax: 2, QInit: 2, QInitMin: 2, InitGas: []string{"Low"}, Ranks: rk(),
+			KeysPN: [][2]int{{1, 1}}, OutN: []int{0}, KSets: [][]string{{"A"}, {"A", "B"}}, Kinds: []string{"slot", "slotf", "in"}, MaxKeysOps: 1,
+			Faults: allFaults, MaxFaults: 2},
 		{Name: "select2", NEons: 1, MaxAge: 2, MaxSlot: 4, QMax: 4, QInit: 3, QInitMin: 3, InitGas: allGas, GrowGas: allGas, Ranks: rk(),
 			KeysPN: grid([]int{0, 1, 2, 3, 4}, []int{1}), OutN: []int{0}, KSets: diag, Kinds: []string{"slot", "in", "grow"}, MaxKeysOps: 1, MaxRst: 0},
 		{Name: "age", NEons: 1, MaxAge: 1, Unreg: []int{2}, MaxSlot: 4, QMax: 3, QInit: 2, InitGas: []string{"Low", "Above"}, GrowGas: []string{"Low"}, Ranks: rk(),
@@ -165,8 +180,8 @@ func (p Plan) baseCfg() string {
 }
 
 func (p Plan) mcCfg(emit bool) string {
-	return p.baseCfg() + fmt.Sprintf("  MaxSlot = %d\n  QMax = %d\n  QInit = %d\n  QInitMin = %d\n  InitGas = %s\n  GrowGas = %s\n  KeysPN <- cKeysPN\n  OutN = %s\n  KSets <- cKSets\n  Kinds = %s\n  MaxKeysOps = %d\n  MaxRestarts = %d\n  Emit = %s\n",
-		p.MaxSlot, p.QMax, p.QInit, p.QInitMin, tlaStrSet(p.InitGas), tlaStrSet(p.GrowGas), tlaIntSet(p.OutN), tlaStrSet(p.Kinds), p.MaxKeysOps, p.MaxRst,
+	return p.baseCfg() + fmt.Sprintf("  MaxSlot = %d\n  QMax = %d\n  QInit = %d\n  QInitMin = %d\n  InitGas = %s\n  GrowGas = %s\n  KeysPN <- cKeysPN\n  OutN = %s\n  KSets <- cKSets\n  Kinds = %s\n  MaxKeysOps = %d\n  MaxRestarts = %d\n  Faults = %s\n  MaxFaults = %d\n  Emit = %s\n",
+		p.MaxSlot, p.QMax, p.QInit, p.QInitMin, tlaStrSet(p.InitGas), tlaStrSet(p.GrowGas), tlaIntSet(p.OutN), tlaStrSet(p.Kinds), p.MaxKeysOps, p.MaxRst, tlaStrSet(p.Faults), p.MaxFaults,
 		strings.ToUpper(fmt.Sprint(emit))) +
 		"SPECIFICATION Spec\nPROPERTY StepProps\nINVARIANT AgreeInv\nINVARIANT GhostInv\nINVARIANT EmitInv\nVIEW View\nCHECK_DEADLOCK FALSE\n"
 }
